@@ -35,6 +35,9 @@ func runC02(c *Check, tier string) {
 	ruleRecordedOutputsComparedAsSets(c, "R02o")
 	useFamily(c, "R02k", famGate, 8)
 	useFamily(c, "R02l", famRestore, 20)
+	// round 7: input contents are read for the key after the dependencies completed, and every time
+	ruleKeyContentReadInsideCallback(c, "R02q")
+	ruleNoContentMemo(c, "R02r", "hashing", "execution", "output")
 	// the key of an unchanged target is the same in every process: no map-ordered write into the hasher
 	shareRule(c, "R02p", "every unordered collection is sorted before it is written to a hasher (same obligations as R09a)", 9, "R09a", func(sub *Check) { ruleR09a(sub) }, nil)
 }
